@@ -198,13 +198,15 @@ def check_solve(A4, b4, tol, cap, prec, sparse, expect_solved=True):
     nb = rt.fro(b4)
     true = rt.fro(rt.qmm(A4, x4) - b4) / nb if nb > 0 else rt.fro(rt.qmm(A4, x4))
     rep_res = float(info["residual"])
-    if nb > 0 and not abs(rep_res - true) <= 1e-9 * max(1.0, true) + 1e-14:
+    # the residual itself is only defined up to the rounding of the product A x:  eps ||A|| ||x|| / ||b||
+    slack = 100 * np.finfo(float).eps * rt.fro(A4) * rt.fro(x4) / nb if nb > 0 else 0.0
+    if nb > 0 and not abs(rep_res - true) <= 1e-6 * true + slack + 1e-15:
         return {"what": "info.residual is not ||Ax-b||/||b|| of the returned x", "reported": rep_res, "true": true}
     if nb == 0:
         if rt.fro(x4) != 0.0:
             return {"what": "b = 0 but x != 0", "normx": rt.fro(x4)}
         return None
-    if info["converged"] and not true <= 10 * tol + 1e-13:
+    if info["converged"] and not true <= 10 * tol + slack + 1e-13:
         return {"what": "converged=True but the true residual is not small", "true": true, "tol": tol}
     hist = info["residual_history"]
     ress = [float(h[2]) for h in hist]
@@ -353,6 +355,14 @@ def bounded(rep: Report, tier, seed):
         Sg = matrix_class(rng, "generic", n)
         Sg[:, -1] = Sg[:, 0]
         b4_.case(f"{P}.bounded.fault.singular", (n, "singular"), lambda Sg=Sg, bq=bq: check_solve(Sg, bq, 1e-8, None, "none", False, expect_solved=False), f"singular A n={n}: flag soundness only", inputs={"A": Sg, "b": bq})
+        # ill-conditioned systems: the preconditioned and the true residual differ by orders of magnitude there, so a
+        # residual / flag formed against the preconditioned system is told apart from the truthful one
+        for cond in (1e8, 1e11, 1e13):
+            sv_ = list(np.geomspace(1.0, 1.0 / cond, n)) if n > 1 else [1.0]
+            Ai = rt.from_svd(rng, n, n, sv_)[0]
+            for prec in ("none", "left_lu"):
+                b4_.case(f"{P}.bounded.fault.ill_conditioned", (n, cond, prec), lambda Ai=Ai, bq=bq, prec=prec: check_solve(Ai, bq, 1e-10, None, prec, False, expect_solved=False),
+                         f"cond {cond:g} n={n} {prec}: truthfulness of residual and flag only", inputs={"A": Ai, "b": bq, "preconditioner": prec})
     b4_.samples.append({"n": 4, "k": 2})
     b4_.done()
 
